@@ -174,14 +174,14 @@ def run(rep, tier, seed, replay_file=None):
     phases["replay"] = round(time.time() - t0, 1)
 
     # the same behaviours at large magnitudes.  quick: one variant per behaviour, drawn with the run's seed (every kind
-    # and split is hit by thousands of behaviours of every shape); thorough: the same for the three large enumerations,
-    # two kinds for full2, every kind (split drawn) for the merge, sigfigs 3..5 and random-walk sets
+    # and split is hit by thousands of behaviours of every shape); thorough: the same for the four large enumerations,
+    # every kind (split drawn) for the merge, sigfigs 3..5 and random-walk sets
     rng = random.Random(seed)
     t0 = time.time()
     scaled, tally, top = [], {}, 0
     for b, origin in zip(behs, src):
         plans = _plans(b, rng)
-        nkinds = 1 if quick or origin in ("canon3_all", "canon6_core", "boundary_full3") else 2 if origin == "full2" else len(KINDS)
+        nkinds = 1 if quick or origin in ("canon3_all", "canon6_core", "boundary_full3", "full2") else len(KINDS)
         avail = [kind for kind in KINDS if any(p[0] == kind for p in plans)]
         kinds = rng.sample(avail, min(nkinds, len(avail)))
         plans = [rng.choice([p for p in plans if p[0] == kind]) for kind in kinds]
